@@ -159,6 +159,66 @@ def gen(ctx):
     for sid, (f, to) in SWITCHR.items():
         for v in range(f - 2, to + 2):
             cases.append("hy switchr %d %d %d %d" % (sid, f, to, v))
+    # ---- entry points added by the API-coverage audit (mutants/C16/API_COVERAGE.md)
+    for n in range(0, 7):
+        for arg in range(0, n + 3):
+            cases.append("cont dyn %d %d" % (n, arg))
+    for n in range(1, 5):
+        for arg in range(0, n + 2):
+            cases.append("cont fv %d %d" % (n, arg))
+        cases.append("cont fmrow %d 0" % n)
+    for n in range(0, 5):
+        for sft in (0, 2, 4):
+            cases.append("cont al:%d %d 0" % (sft, n))
+        cases.append("cont tr %d 0" % n)
+        for arg in range(0, n + 1):
+            cases.append("cont sl %d %d" % (n, arg))
+    BK = [("genbi", -1, True, "mc", 0), ("genfw", 0, False, "mc", 0), ("bsv", 0, False, "mc", 0), ("diag", -1, True, "mc", 2),
+          ("cbi", -1, True, "mc", 0), ("nffw", 0, False, "m", 0), ("nfbi", -1, True, "m", 0)]
+    for kind, lo, bidir, variants, nmin in BK:
+        for n in range(nmin, 6):
+            for i in range(lo, n + 1):
+                for j in range(lo, n + 1):
+                    cases.append("bcmp %s %d %d %d" % (kind, n, i, j))
+                for k in range((lo - i) if bidir else 0, n - i + 1):
+                    for var in variants:
+                        cases.append("bstep %s %d %s %d %d" % (kind, n, var, i, k))
+    for kind in ("nfman", "nfptr"):
+        for n in range(0, 6):
+            for i in range(-1, n + 1):
+                for j in range(-1, n + 1):
+                    cases.append("ncmp %s %d %d %d" % (kind, n, i, j))
+                for k in range(-1 - i, n - i + 1):
+                    cases.append("nstep %s %d m %d %d" % (kind, n, i, k))
+    for n in range(1, 6):
+        for i in range(0, n):
+            cases.append("arrow %d %d" % (n, i))
+    for kind, lo in (("al", 0), ("sl", 0), ("dyn", -1), ("gen", -1)):
+        for n in range(0, 5):
+            for i in range(lo, n + 1):
+                for j in range(lo, n + 1):
+                    cases.append("prim %s %d %d %d" % (kind, n, i, j))
+    cases.append("hyx enum")
+    for variant in ("ref", "proxy", "iter", "fwd", "direct"):
+        cases.append("trx %s -" % variant)
+        for _ in range(15 if quick else 200):
+            cases.append("trx %s %s" % (variant, ",".join(map(str, rxs())) or "-"))
+    for _ in range(15 if quick else 200):
+        cases.append("sparsex diag %s" % ",".join(str(rng.randrange(-9, 10)) for _ in range(rng.randrange(2, 5))))
+    for _ in range(40 if quick else 500):
+        cases.append("rutil %s" % ",".join(str(rng.choice([0, 0, 1, -1, 7, rng.randrange(-50, 50)])) for _ in range(rng.randrange(1, 7))))
+    for i in range(8):
+        cases.append("iseq %d" % i)
+    for rid, (f, to) in {0: (0, 0), 1: (0, 3), 2: (2, 6), 3: (4, 4)}.items():
+        cases.append("hyx range %d %d %d" % (rid, f, to))
+    for v in range(0, 9):
+        cases.append("hyx vswitch %d" % v)
+    for a in range(3):
+        for b in range(3):
+            for c in range(3):
+                cases.append("hyx fun3 %d %d %d" % (a, b, c))
+    for _ in range(15 if quick else 200):
+        cases.append("hyx fvec %s" % ",".join(str(rng.randrange(-99, 100)) for _ in range(3)))
     for op in ["plus", "minus", "max", "min", "equal_to"]:
         for a in range(5):
             for b in range(5):
@@ -177,8 +237,10 @@ def toks(line):
 
 def case_class(case):
     t = case.split()
-    if t[0] in ("cmp", "cmpx", "step"):
+    if t[0] in ("cmp", "cmpx", "step", "bcmp", "bstep", "ncmp", "nstep", "cont", "prim"):
         return t[0], t[1].split(":")[0]
+    if t[0] in ("trx", "hyx"):
+        return t[0], t[1]
     if t[0] == "hy":
         return "hy", t[1]
     if t[0] == "irange":
@@ -204,7 +266,7 @@ def oracle_all(case, impl, spec):
         if di.get(k) == ds[k]:
             continue
         got = di.get(k, "<missing>")
-        if op in ("cmp", "cmpx"):
+        if op in ("cmp", "cmpx", "bcmp", "ncmp"):
             i, j = int(t[3]), int(t[4])
             rel = "i=j" if i == j else ("i<j" if i < j else "i>j")
             mixed = "mixed" if k[0] != k[1] else "same"
@@ -260,8 +322,9 @@ def build(ctx, san=True):
     for name, kw in variants:
         for k in range(1, 6):
             jobs.append(dict(srcs=[src], out=ctx.path("%s.p%d.o" % (name, k)), repo_srcs=[], flags=flags + ["-g0", "-c", "-DC16_PART=%d" % k], **kw))
+        jobs.append(dict(srcs=[os.path.join(H, "impl2.cc")], out=ctx.path("%s.p6.o" % name), repo_srcs=[], flags=flags + ["-g0", "-c"], **kw))
     V.cxx_many(ctx, jobs)
-    outs = V.cxx_many(ctx, [dict(srcs=[ctx.path("%s.p%d.o" % (name, k)) for k in range(1, 6)], out=ctx.path(name), flags=["-g0"], **kw)
+    outs = V.cxx_many(ctx, [dict(srcs=[ctx.path("%s.p%d.o" % (name, k)) for k in range(1, 7)], out=ctx.path(name), flags=["-g0"], **kw)
                             for name, kw in variants])
     return mixed, outs[0], (outs[1] if san else None), out
 
@@ -319,7 +382,7 @@ def run(ctx):
             ctx.violation("C16:%s:%s:ubsan:signed-overflow-in-difference" % case_class(cases[i]),
                           {"case": cases[i], "impl": io[i], "impl_sanitized_build": o[0],
                            "oracle": "undefined behaviour: it1 - it2 computed as difference_type(a) - difference_type(b) overflows although the distance is representable"})
-    nontriv = set(c for c in cases if not re.match(r"^(cmp|cmpx|step) \S+ 0 ", c) and not c.endswith(" -"))
+    nontriv = set(c for c in cases if not re.match(r"^(cmp|cmpx|step|bcmp|bstep|ncmp|nstep|cont) \S+ 0 ", c) and not c.endswith(" -"))
     ctx.coverage.update({
         "evaluations": len(cases), "distinct_nontrivial": len(nontriv),
         "rule": "cases = corpus + for every iterator kind (DynamicVector/FieldVector/FieldMatrix-row DenseIterator, GenericIterator, ArrayList with start offsets, "
